@@ -279,7 +279,7 @@ Proof. intros H. rewrite firstn_app. replace (n - length l) with 0 by lia. simpl
 Lemma step_inv c t e : Inv c t -> acc_ok c t e = true -> Inv c (track c t e).
 Proof.
   intros HI Ha. pose proof HI as [HS HL].
-  destruct e as [s r|s ks| | |ws ok snap|s n ks|s n|s|s|s|s fast]; simpl in Ha |- *.
+  destruct e as [s r|s ks| | |ws ok snap|s n ks|s n|s|s|s|s fast|s hn]; simpl in Ha |- *.
   - (* ERead *)
     repeat (apply andb_true_iff in Ha; destruct Ha as [Ha ?]). apply Nat.ltb_lt in H.
     apply set_src_inv; [exact HI| |intros Hf; simpl; apply HL; exact Hf].
@@ -346,6 +346,8 @@ Proof.
     eapply InvS_ext; [apply HS|..]; try reflexivity. simpl. apply (i_lastp _ _ (HS s)).
   - apply set_src_inv; [exact HI| |intros Hf; simpl; apply HL; exact Hf].
     eapply InvS_ext; [apply HS|..]; try reflexivity. simpl. apply (i_lastp _ _ (HS s)).
+  - apply set_src_inv; [exact HI| |intros Hf; simpl; apply HL; exact Hf].
+    eapply InvS_ext; [apply HS|..]; try reflexivity. simpl. apply (i_lastp _ _ (HS s)).
 Qed.
 
 (* ---------- one accepted step satisfies the monitors ---------- *)
@@ -377,7 +379,7 @@ Lemma step_mon2 strict c t e :
   (strict = true -> fixed c = true) ->
   Inv c t -> acc_ok c t e = true -> mon2_ok strict c t e = true.
 Proof.
-  intros Hfx [HS HL] Ha. destruct e as [s r|s ks| | |ws ok snap|s n ks|s n|s|s|s|s fast]; simpl in *; try reflexivity.
+  intros Hfx [HS HL] Ha. destruct e as [s r|s ks| | |ws ok snap|s n ks|s n|s|s|s|s fast|s hn]; simpl in *; try reflexivity.
   - repeat (apply andb_true_iff in Ha; destruct Ha as [Ha ?]). rewrite forallb_forall in *.
     intros w Hw. apply write_mon2; [apply HS|apply H1; exact Hw].
   - repeat (apply andb_true_iff in Ha; destruct Ha as [Ha ?]).
@@ -398,7 +400,7 @@ Lemma step_mon3 strict c t e :
   Inv c t -> acc_ok c t e = true -> mon3_ok strict c t e = true.
 Proof.
   intros Hfx HI Ha. pose proof HI as [HS HL].
-  destruct e as [s r|s ks| | |ws ok snap|s n ks|s n|s|s|s|s fast]; simpl; try reflexivity.
+  destruct e as [s r|s ks| | |ws ok snap|s n ks|s n|s|s|s|s fast|s hn]; simpl; try reflexivity.
   - (* ERead *)
     simpl in Ha. repeat (apply andb_true_iff in Ha; destruct Ha as [Ha ?]). apply Nat.ltb_lt in H.
     destruct (eng (src t s)) eqn:He; [simpl|reflexivity]. apply Nat.ltb_lt.
